@@ -140,6 +140,73 @@ def build_harness(fresh_tables=False):
     return time.time() - t0
 
 
+def translate_build_tables():
+    """gen/Zobrist.v and gen/Magics.v: the tables of THIS build of the current tree.  Zobrist
+    constants are read black-box through the public API by the harness (one-feature boards),
+    magic entries through the cfg(chess_verif) accessor; theorems over them (table_okb,
+    entries_valid) are re-checked by the kernel on every run."""
+    r = run([HARNESS_BIN, "zobrist"])
+    if r.returncode != 0:
+        raise Broken("harness zobrist dump failed", r.stdout[-500:])
+    zp, zc, ze = {}, {}, {}
+    for l in r.stdout.splitlines():
+        t = l.split()
+        if t and t[0] == "zp":
+            zp[(int(t[1]), int(t[2]), int(t[3]))] = int(t[4])
+        elif t and t[0] == "zc":
+            zc[int(t[1])] = int(t[2])
+        elif t and t[0] == "ze":
+            ze[int(t[1])] = int(t[2])
+    if len(zp) != 768 or len(zc) != 16 or len(ze) != 64:
+        raise Broken("zobrist dump incomplete: %d/%d/%d constants" % (len(zp), len(zc), len(ze)))
+    zpl = [zp[(p, sq, c)] for p in range(6) for sq in range(64) for c in range(2)]
+    out = ["(* GENERATED by tools/vcheck.py from the Zobrist constants of the current build (read through",
+           "   the public API: key of a one-piece board, of lose_castle_rights(15 & !r), of one ep push) — do not edit. *)",
+           "From Coq Require Import NArith List.", "Import ListNotations.", "From ChessV Require Import Types Board.", "Open Scope N_scope.", "",
+           "Definition ZP : list N := [%s]." % "; ".join(map(str, zpl)),
+           "(* relative rights constants: ZC[r] = T[15] xor T[r] *)",
+           "Definition ZC : list N := [%s]." % "; ".join(str(zc[i]) for i in range(16)),
+           "Definition ZE : list N := [%s]." % "; ".join(str(ze[i]) for i in range(64)),
+           "Definition BUILD_TABLE : ztable :=",
+           "  {| zp := fun p i c => nth (N.to_nat ((piece_idx p * 64 + i) * 2 + color_idx c)) ZP 0;",
+           "     zc := fun r => nth (N.to_nat r) ZC 0;",
+           "     ze := fun s => nth (N.to_nat s) ZE 0 |}."]
+    write_if_changed(os.path.join(ROCQ, "gen", "Zobrist.v"), "\n".join(out) + "\n")
+    r = run([HARNESS_BIN, "magics"])
+    if r.returncode != 0:
+        raise Broken("harness magics dump failed", r.stdout[-500:])
+    ent = {"rook": {}, "bishop": {}}
+    sizes = None
+    for l in r.stdout.splitlines():
+        t = l.split()
+        if t and t[0] in ent:
+            ent[t[0]][int(t[1])] = tuple(int(x) for x in t[2:6])
+        elif t and t[0] == "sizes":
+            sizes = (int(t[1]), int(t[2]))
+    if len(ent["rook"]) != 64 or len(ent["bishop"]) != 64 or sizes is None:
+        raise Broken("magic entry dump incomplete")
+    def entries(d):
+        return "[\n  " + ";\n  ".join("{| m_mask := %d; m_magic := %d; m_shift := %d; m_offset := %d |}" % d[i] for i in range(64)) + "]"
+    out = ["(* GENERATED by tools/vcheck.py from ROOK_MAGICS / BISHOP_MAGICS of the current build (OUT_DIR/magic_table.rs,",
+           "   read through the cfg(chess_verif) accessor magic_entries_for_verif) — do not edit. *)",
+           "From Coq Require Import NArith List.", "Import ListNotations.", "From ChessV Require Import Magic.", "Open Scope N_scope.", "",
+           "Definition ROOK_ENTRIES : list mentry := %s." % entries(ent["rook"]),
+           "Definition BISHOP_ENTRIES : list mentry := %s." % entries(ent["bishop"]),
+           "Definition ROOK_TABLE_SIZE : N := %d." % sizes[0],
+           "Definition BISHOP_TABLE_SIZE : N := %d." % sizes[1]]
+    write_if_changed(os.path.join(ROCQ, "gen", "Magics.v"), "\n".join(out) + "\n")
+
+
+def write_if_changed(path, txt):
+    old = None
+    if os.path.exists(path):
+        with open(path) as f:
+            old = f.read()
+    if old != txt:
+        with open(path, "w") as f:
+            f.write(txt)
+
+
 def rocq_make(targets, timeout=1500):
     if not os.path.exists(os.path.join(ROCQ, "Makefile")):
         r = run(["coq_makefile", "-f", "_CoqProject", "-o", "Makefile"], cwd=ROCQ)
@@ -295,10 +362,10 @@ def obs_equal(op, impl, model, cfg):
         return True
     if model == "SKIP":
         return True
-    if tag == "search" and impl is not None and model is not None:
-        # impl: search Ok <score> <move> [BOARD-CHANGED]; model: search Ok <score> {attaining moves}
-        mi = re.match(r"search Ok (-?\d+) (\S+)$", impl)
-        mm = re.match(r"search Ok (-?\d+) \{(.*)\} \{(.*)\}$", model)
+    if tag in ("search", "sched") and impl is not None and model is not None:
+        # impl: search Ok <score> <move> [BOARD-CHANGED]; model: search Ok <score> {attaining moves} {legal moves}
+        mi = re.match(r"%s Ok (-?\d+) (\S+)$" % tag, impl)
+        mm = re.match(r"%s Ok (-?\d+) \{(.*)\} \{(.*)\}$" % tag, model)
         if mi and mm:
             if cfg.get("search_mode") == "legal":     # C07: any legal move, board untouched
                 return mi.group(2) in mm.group(3).split(" ")
@@ -438,6 +505,7 @@ def run_property(pid, tier, seed, replay=None):
     try:
         translate()
         build_harness(fresh_tables=(tier == "thorough" and cfg.get("fresh_tables", False)))
+        translate_build_tables()
         for hook in cfg.get("pre", ()):
             hook(sys.modules[__name__])
         try:
@@ -574,6 +642,7 @@ def setup():
     t0 = time.time()
     translate()
     build_harness()
+    translate_build_tables()
     rocq_make([])
     build_runner()
     log("setup done in %.0fs" % (time.time() - t0))
